@@ -44,6 +44,27 @@ class CliRules:
         self.fields = {f['n']: f['d'][2:] for f in inner['fields']}
         self.paths = {}
 
+    def kernel_sets(self):
+        """Mode numbers the kernel accepts: the selector predicates the verification step applies to header bytes
+        (bool-returning static predicate of the stream factory; hash-type mapping with an Unknown enumerator)."""
+        prog = self.prog
+        out = {}
+        for fld, q in (('ctype', 'AesFactory::isType'), ('htype', 'HashFactory::getType')):
+            fs = [g for g in prog.functions.values() if g['q'] == q and g.get('body')]
+            if len(fs) != 1:
+                raise AnalysisBroken('kernel selector predicate %s not found' % q)
+            valid = set()
+            for k in range(256):
+                Ik = interp.Interp(prog, models=dict(models.STD_MODELS))
+                r = Ik.run(fs[0], interp.State(), args=[C(k)])
+                if len(r) != 1 or r[0][1][0] != 'c':
+                    raise AnalysisBroken('%s(%d) not decided' % (q, k))
+                x = r[0][1][1]
+                if (q.endswith('isType') and x) or (q.endswith('getType') and x != -1 and x != 0xffffffff):
+                    valid.add(k)
+            out[fld] = (q, valid)
+        return out
+
     def option_codes(self):
         g = self.prog.globals
         so = g.get('shortOpts', {}).get('value')
@@ -192,11 +213,18 @@ class CliRules:
         class Lst:
             def __init__(self):
                 self.fopens = []
+                self.fopen_ops = []
                 self.narrow = []
                 self.strw = []
 
             def on_fopen(self, I, st, node, root, mode, path):
                 self.fopens.append((node, mode, path))
+                ops = set()
+                for k, v in st.mem.items():
+                    if k[1] and k[1][-1] == R.fields['mode']:
+                        sv = setof(v)
+                        ops |= sv if sv is not None else {None}
+                self.fopen_ops.append((node, mode, path, ops))
 
             def on_prestore(self, I, st, loc, val, node):
                 # validate before narrowing: an argv-derived integer stored into a narrower field
@@ -257,6 +285,19 @@ class CliRules:
                            'successful return with mode %r and %s %s' % (chr(m), fld, 'set' if nonnull else 'possibly NULL (%s): dereferenced later' % show(pv)),
                            path=[str(x) for x in s.trace[-8:]])
         rec.count('R17.a successful parser returns', nret, 3)
+        # ---- R17.g mode numbers that pass the parser are ones the kernel factories know (at the stores of validated numbers)
+        ksets = self.kernel_sets()
+        ng = 0
+        for node, fld, r, tr, ok in L.narrow:
+            short = fld.split('::')[-1]
+            if short not in ksets:
+                continue
+            fn, valid = ksets[short]
+            ok2 = r is not None and r[1] - r[0] < 300 and all(x in valid for x in range(r[0], r[1] + 1))
+            ng += 1
+            rec.ob('R17.g', 'R17.g@%s::accepted-%s-known-to-kernel' % (fkey(f), short), ok2, nloc(node),
+                   'command-line number stored as %s lies in %s after validation; %s knows %s' % (short, r, fn, sorted(valid)))
+        rec.count('R17.g validated mode numbers', ng, 2)
         # ---- R17.c
         seen = set()
         for node, fld, r, tr, ok in L.narrow:
@@ -284,6 +325,15 @@ class CliRules:
             if path[0] == 'p' and path[1] == OPTARG and 'r' in mode and '+' in mode or (path[0] == 'p' and path[1] == OPTARG and 'w' in mode and False):
                 pass
         rec.count('R12.d default-output opens', ndef, 1)
+        # ---- R12.e verification opens no output file the user did not name
+        for node, mode, path, ops in L.fopen_ops:
+            if 'w' in mode or 'a' in mode or '+' in mode:
+                named = path[0] == 'p' and path[1] == OPTARG
+                ok = named or (None not in ops and ord('v') not in ops)
+                rec.ob('R12.e', 'R12.e@%s::no-default-output-for-verify' % fkey(f), ok, nloc(node),
+                       'file opened for writing (%s) %s while the selected operation is in {%s}' % (
+                           mode, 'under the name the user gave' if named else 'under a name the parser made up',
+                           ','.join(sorted('?' if o is None else chr(o) for o in ops))))
         # the input is opened read-only
         for node, mode, path in L.fopens:
             if path[0] == 'p' and path[1] == OPTARG:
@@ -329,11 +379,24 @@ class CliRules:
 
         def m_exec(name):
             def m(I, st, fr, n, this, args, an):
+                runs.append((name, st.comps.get('runner_T'), nloc(n)))
                 s2 = st.copy()
                 st.comps['op'] = (name, 0)
                 s2.comps['op'] = (name, 1)
                 return [(st, C(0)), (s2, C(1))]
             return m
+        runs = []
+        rcq = None
+
+        def m_rc_ctor(I, st, fr, n, this, args, an):
+            ctor = [g for g in prog.functions.values() if g.get('ctor') and g.get('rec') == rcq]
+            tv = None
+            if len(ctor) == 1:
+                for i, p_ in enumerate(ctor[0]['params']):
+                    if 'thread' in p_['n'] and i < len(args):
+                        tv = args[i]
+            st.comps['runner_T'] = show(tv) if tv is not None else None
+            return [(st, ('void',))]
 
         def m_void(I, st, fr, n, this, args, an):
             return [(st, ('void',))]
@@ -345,7 +408,8 @@ class CliRules:
         for m in rc['methods']:
             if m['n'].startswith('execute_'):
                 mdl[rc['q'] + '::' + m['n']] = m_exec(m['n'])
-        mdl[rc['q'] + '::' + rc['q'].split('::')[-1]] = m_void
+        rcq = rc['q']
+        mdl[rc['q'] + '::' + rc['q'].split('::')[-1]] = m_rc_ctor
         mdl[rc['q'] + '::~' + rc['q'].split('::')[-1]] = m_void
 
         class Ex:
@@ -378,6 +442,18 @@ class CliRules:
             ok = is_int(code) and compare('!=', code, C(0), s.sym) is True
             rec.ob('R17.d', 'R17.d@%s::exit-call-nonzero' % fkey(f), ok, where, 'exit(%s) on a rejected settings value' % show(code))
         rec.count('R17.d main exits', n, 5)
+        # ---- R12.f the verifying and the decrypting runner are configured alike (same stream count)
+        tv = {nm: sorted({str(t) for n2, t, _ in runs if n2 == nm}) for nm in ('execute_verify', 'execute_decrypt')}
+        if not tv['execute_verify'] or not tv['execute_decrypt']:
+            rec.ob('R12.f', 'R12.f@%s::same-stream-count-for-verify-and-decrypt' % fkey(f), None, where, 'verify/decrypt calls not found in main: %s' % tv)
+        else:
+            same = tv['execute_verify'] == tv['execute_decrypt'] and len(tv['execute_verify']) == 1 and tv['execute_verify'][0] not in ('None', 'T')
+            dep = rec.extra.get('verify_outcome_depends_on_stream_count')
+            ok = True if (same or dep is False) else (False if dep else None)
+            rec.ob('R12.f', 'R12.f@%s::same-stream-count-for-verify-and-decrypt' % fkey(f), ok, where,
+                   'stream count of the runner: verify %s, decrypt %s; the outcome of the shared verification step %s on the stream count (%s)' % (
+                       tv['execute_verify'], tv['execute_decrypt'], {True: 'DEPENDS', False: 'does not depend', None: 'is not known to depend'}[dep],
+                       rec.extra.get('verify_outcome_signature')))
 
     # ------------------------------------------------------------------ uncaught exceptions
     def exceptions(self):
